@@ -252,7 +252,8 @@ theorem fail_stop_writeLoop_zero (fuel : Nat) (w : Writer) (head buf : Bytes) (t
 was written before, and what `write_all` returns as unwritten is the rest. -/
 theorem fail_stop_writeAll (fuel : Nat) (buf : Bytes) (t : Transport) {rest : Bytes} {t' : Transport}
     {e : IoErr} (h : writeAllLoop fuel buf t = (rest, t', .err e)) :
-    (e = .transportWrite ∨ e = .writeZero) ∧ ∃ done, buf = done ++ rest ∧ t'.wlog = t.wlog ++ done :=
+    ((e = .transportWrite ∨ e = .connectionAborted) ∨ e = .writeZero) ∧
+      ∃ done, buf = done ++ rest ∧ t'.wlog = t.wlog ++ done :=
   ⟨writeAllLoop_err _ _ _ h, (writeAllLoop_spec _ _ _ h).1⟩
 
 /-- `parse_request`'s `write_all` fails ⇒ the connection task finishes (no handler is started). -/
@@ -276,6 +277,81 @@ theorem close_failure_finishes (fuel : Nat) (c : Conn) (r : AReq) (cs : CloseSt)
   obtain ⟨phase, env, scripts, stop⟩ := c
   simp only at hp hc; subst hp
   rw [pollConn_succ]; simp only [stepConn, hc]; rfl
+
+/-! ## 11. A transport error is never mistaken for "the client aborted this request"
+
+`Token::run` turns a handler `Err` into `close(ABORT)` — which writes the epilogue — only for the
+library's own `AbortRequest` signal (`IoErr.abortRequest`: kind `ConnectionAborted` *carrying*
+`parser::Error::AbortRequest`).  A transport may fail with kind `ConnectionAborted` by itself
+(`Transport.abortKind`, the `ek=a` runs of the harness); on the pinned tree the two were told apart by
+kind alone and a propagated transport failure of that kind was followed by further writes (known
+finding, fixed).  These theorems are what keeps that fixed in the model. -/
+
+theorem transport_error_kinds_not_abort (t : Transport) :
+    t.rdErr ≠ .abortRequest ∧ t.wrErr ≠ .abortRequest ∧ t.flErr ≠ .abortRequest := by
+  unfold Transport.rdErr Transport.wrErr Transport.flErr
+  refine ⟨?_, ?_, ?_⟩ <;> split <;> decide
+
+theorem read_error_not_abort {t t' : Transport} {cap : Nat} {e : IoErr}
+    (h : t.read cap = (t', .ready (.error e))) : e ≠ .abortRequest := by
+  unfold Transport.read at h
+  repeat' (split at h)
+  all_goals (try dsimp only at h)
+  repeat' (split at h)
+  all_goals first
+    | (cases h; exact (transport_error_kinds_not_abort _).1)
+    | (cases h; done)
+
+theorem write_error_not_abort {t : Transport} {sl : List Bytes} {tag : String} {e : IoErr}
+    (h : (t.writeV sl tag).2 = .ready (.error e)) : e ≠ .abortRequest :=
+  (writeV_err_kind t sl tag e h).ne_abort
+
+theorem flush_error_not_abort {t t' : Transport} {e : IoErr}
+    (h : t.flush = (t', .ready (.error e))) : e ≠ .abortRequest := by
+  unfold Transport.flush at h
+  repeat' (split at h)
+  all_goals (try dsimp only at h)
+  repeat' (split at h)
+  all_goals first
+    | (cases h; exact (transport_error_kinds_not_abort _).2.2)
+    | (cases h; done)
+
+/-- A handler that propagates an error which is not the library's abort signal — in particular any
+transport failure, whatever its kind — ends the connection task in that very step: the phase becomes
+`finished` (never `closing`), and the step writes nothing. -/
+theorem propagated_error_finishes (fuel : Nat) (c : Conn) (r : AReq) (h : HState) (r' : AReq) (h' : HState)
+    (e : Env) (x : IoErr) (hp : c.phase = .handler r h)
+    (hh : handlerPoll (handlerFuel c.env) r h c.env = (r', h', e, .done (.error x)))
+    (hx : x ≠ .abortRequest) :
+    pollConn (fuel + 1) c = ({ c with phase := .finished, env := e.ev s!"HE(err:{showIo x})" }, .finished) ∧
+    (e.ev s!"HE(err:{showIo x})").tr.wlog = e.tr.wlog := by
+  obtain ⟨phase, env, scripts, stop⟩ := c
+  simp only at hp hh; subst hp
+  refine ⟨?_, by simp [Env.ev, Transport.ev]⟩
+  rw [pollConn_succ]
+  simp only [stepConn]
+  simp only [handlerFuel] at hh
+  rw [hh]
+  simp [hx]
+  rfl
+
+/-- … and a failed transport write is such an error. -/
+theorem propagated_write_failure_finishes (fuel : Nat) (c : Conn) (r : AReq) (h : HState) (r' : AReq)
+    (h' : HState) (e : Env) (x : IoErr) (hp : c.phase = .handler r h)
+    (hh : handlerPoll (handlerFuel c.env) r h c.env = (r', h', e, .done (.error x)))
+    (hk : x = .transportWrite ∨ x = .connectionAborted ∨ x = .writeZero) :
+    pollConn (fuel + 1) c = ({ c with phase := .finished, env := e.ev s!"HE(err:{showIo x})" }, .finished) ∧
+    (e.ev s!"HE(err:{showIo x})").tr.wlog = e.tr.wlog :=
+  propagated_error_finishes fuel c r h r' h' e x hp hh (by rcases hk with rfl | rfl | rfl <;> decide)
+
+/-- In `close`, a failure of `writeable()` is swallowed only for the library's abort signal. -/
+theorem close_swallows_only_abort {r : AReq} {cs : CloseSt} {m : MutexSt} {t : Transport}
+    {x : CloseOut} (h : closeP1 r cs m t = .error x) :
+    x.2.2.2.2 ≠ .err .abortRequest := by
+  rcases (closeP1_error h).2.2 with hp | ⟨e, hp, hne⟩ | ⟨s, hp, _⟩
+  · rw [hp]; simp
+  · rw [hp]; intro hc; cases hc; exact hne rfl
+  · rw [hp]; simp
 
 /-! ## Concrete instances (non-vacuity) -/
 
